@@ -322,17 +322,28 @@ def selftest_fail(pid, what):
 
 # ---------------------------------------------------------------------------------------------- schedules
 
-def cover_schedules(edges, maxlen=40, label=lambda a: a):
+def cover_schedules(edges, maxlen=40, label=lambda a: a, sort_lists=False):
     """From exported transitions [{s, a, t}] build schedules (lists of action labels) from the initial state that
     together traverse every transition at least once: BFS tree path to the source of an uncovered transition, then a
     greedy walk over uncovered transitions."""
     import collections
+
+    def canon(x):
+        if isinstance(x, list):
+            return sorted((canon(i) for i in x), key=lambda v: json.dumps(v, sort_keys=True)) if sort_lists else [canon(i) for i in x]
+        if isinstance(x, dict):
+            return {k: canon(v) for k, v in x.items()}
+        return x
+
+    def key(st):
+        return st if isinstance(st, str) else json.dumps(canon(st), sort_keys=True)
+
     adj = collections.defaultdict(list)
     for e in edges:
-        adj[e["s"]].append((e["a"], e["t"]))
+        adj[key(e["s"])].append((e["a"], key(e["t"])))
     if not edges:
         return []
-    init = edges[0]["s"]
+    init = key(edges[0]["s"])
     parent = {init: None}
     order = [init]
     q = collections.deque([init])
